@@ -1,6 +1,8 @@
 """Property -> rules table (DESIGN.md section 5)."""
 import rules_sched as S
 import rules_term as T
+import rules_build as B
+import rules_run as R
 
 K01 = ("K0", "K1")
 TRUST = [
@@ -25,7 +27,8 @@ def prop(pid, rules, cfgs_quick, explanation, technique, not_decided, cfgs_thoro
 prop("C02",
      [("S1", S.S1, K01, {}), ("S2", S.S2, K01, {}), ("S3", S.S3, K01, {}), ("S4", S.S4, K01, {}), ("S5", S.S5, K01, {}),
       ("L2", lambda ctx: __import__("rules_run").L2(ctx), K01, {}),
-      ("B1", S.opts_frame, K01, {"fields": ("StreamOrder",)})],
+      ("B1", S.opts_frame, K01, {"fields": ("StreamOrder",)}),
+      ("R3", B.R3, ("K0",), {"parts": ("structures", "counts")})],
      K01,
      "Decides the scheduler premises S1-S5 (and L2: each fold step returns its state only after the user future's Ready arm) on the MIR of every streaming path: counts/structure pairing chain "
      "(in-degree with forward structure, out-degree with reversed structure, build() orientation, StreamOpts::rev/default), "
@@ -37,7 +40,8 @@ prop("C02",
 
 prop("C03",
      [("S1", S.S1, K01, {}), ("S2", S.S2, K01, {}), ("S3", S.S3, K01, {}), ("S5", S.S5, K01, {}),
-      ("S6", S.S6, K01, {"roles_filter": ("READY", "DONE")})],
+      ("S6", S.S6, K01, {"roles_filter": ("READY", "DONE")}),
+      ("R3", B.R3, ("K0",), {"parts": ("structures", "counts")})],
      K01,
      "Decides S2 (each ready-send is the preload of all zero-count nodes or the release at count==0 after the decrement), "
      "S3 (counts only decrease by one per predecessor edge) and S6 (channel capacities are monotone in node_count so try_send never drops an id).",
@@ -46,7 +50,8 @@ prop("C03",
 
 prop("C04",
      [("T1", T.T1, K01, {}), ("T2", T.T2, K01, {}), ("T3", T.T3, K01, {"want_stream": False}),
-      ("S6", S.S6, K01, {}), ("S7", S.S7, K01, {}), ("S1", S.S1, K01, {}), ("T4", T.T4, ("K1",), {}), ("A1", T.A1, K01, {})],
+      ("S6", S.S6, K01, {}), ("S7", S.S7, K01, {}), ("S1", S.S1, K01, {}), ("T4", T.T4, ("K1",), {}), ("A1", T.A1, K01, {}),
+      ("S2", S.S2, K01, {}), ("S3", S.S3, K01, {})],
      K01,
      "Decides the release-obligation table T1 per public entry point (done-sender released on EMPTY / FINISHED / INTERRUPTED / FAILED; "
      "ready-sender released by the queuer), T2 (queuer and scheduler joined), T3 (wake-up typestate of every hand-written poll function "
@@ -88,7 +93,7 @@ prop("C01",
 prop("C06",
      [("W1", B.W1, K0, {}), ("W2", B.W2, K0, {}), ("R1", B.R1, K0, {}), ("W3", S.W3, K01, {}), ("S3", S.S3, K01, {}),
       ("S6", S.S6, K01, {"roles_filter": ("READY", "DONE")}),
-      ("W4", lambda ctx: __import__("rules_run").W4(ctx), K01, {})],
+      ("W4", lambda ctx: __import__("rules_run").W4(ctx), K01, {}), ("S2", S.S2, K01, {})],
      K01,
      "Decides W4 = L1 (limit forwarded unchanged, so None gates nothing), W1 (the only edge-adding call on the user's graph reachable from build() is update_edge with the constant Edge::Data, "
      "no other node/edge-set mutator), W2 (the comparison pairs feeding its guard contain no read x read pair and no same-function pair; "
@@ -99,7 +104,7 @@ prop("C06",
 
 prop("C11",
      [("R3", B.R3, K04, {"parts": ("graph-field",)}), ("W1", B.W1, K04, {}), ("B3", B.B3, K04, {}), ("R2", B.R2, K04, {"strict_order": True}),
-      ("R1", B.R1, K04, {}), ("K", B.C13_rules, K04, {}), ("P1", B.P1, K04, {})],
+      ("R1", B.R1, K04, {}), ("K", B.C13_rules, K04, {}), ("P1", B.P1, K04, {}), ("E", B.C16_rules, K04, {})],
      K04,
      "Decides B1 (phase order: ranks, then augmentation, then counts and structure copies, all on the same graph which becomes FnGraph.graph), "
      "B2 (no add_node/remove/clear/retain reaches the user's Dag from build()), B3 (the only added edge is Edge::Data, control dependent on "
@@ -159,7 +164,7 @@ prop("C07",
 
 prop("C08",
      [("I", R.I_rules, ("K1",), {}), ("S5", S.S5, ("K1",), {}), ("T1", T.T1, ("K1",), {"kinds": ("INTERRUPTED",)}), ("T4", T.T4, ("K1",), {}),
-      ("B1", S.opts_frame, ("K1",), {"fields": ("InterruptibilityState", "bool")})],
+      ("B1", S.opts_frame, ("K1",), {"fields": ("InterruptibilityState", "bool")}), ("S7", S.S7, ("K1",), {})],
      ("K1",),
      "Decides the wiring only: I1 (opts.interruptibility_state and interrupted_next_item_include flow unchanged from each public parameter - or from "
      "StreamOpts::default() - to the ready-stream wrapper; stream_with_interruptible passes the state to interruptible_with, stream/stream_with do not wrap), "
@@ -169,7 +174,7 @@ prop("C08",
      "THE NUMERIC BOUNDS THEMSELVES (<= 1 / <= n more, pending-signal cases, PollNextN(0)): they are the state machine of interruptible::InterruptibleStream in another crate; fn_graph only wires it")
 
 prop("C09",
-     [("O", R.O_rules, K01, {}), ("O3b", R.O3b, K01, {}), ("S5", S.S5, K01, {}), ("I2", R.I2_rule, ("K1",), {})],
+     [("O", R.O_rules, K01, {}), ("O3b", R.O3b, K01, {}), ("S5", S.S5, K01, {}), ("I2", R.I2_rule, ("K1",), {}), ("O5", R.O5, K01, {})],
      K01,
      "Decides O1 (the only pushes to fn_ids_processed happen in the ready-stream adaptors, with the id dequeued from READY, once per dequeue, not in per-item bodies), "
      "O2 (StreamOutcome::new stores processed/state unchanged and computes not-processed as the node-order filter !processed.contains(id) over all nodes of the walked structure; "
@@ -179,7 +184,7 @@ prop("C09",
      "the order claim beyond `push happens at dequeue`")
 
 prop("C10",
-     [("L1", R.L1, K01, {}), ("L2", R.L2, K01, {}), ("L3", R.L3, K01, {})],
+     [("L1", R.L1, K01, {}), ("L2", R.L2, K01, {}), ("L3", R.L3, K01, {}), ("S6", S.S6, K01, {"roles_filter": ("READY",)})],
      K01,
      "Decides L1 (`limit` flows unchanged from each of the 12 public parameters into StreamExt::for_each_concurrent's limit argument, whose stream is the READY stream) "
      "and L2 (fold/try_fold paths are driven by StreamExt::fold / TryStreamExt::try_fold and return their state only after the user future's Ready arm).",
